@@ -45,6 +45,15 @@ chk("C17", "exploration",
     "delivered, field by field bitwise, with exactly one invocation per step.", T_NOTE,
     "deterministic simulation: observer-vs-delivered history equality", "§5 C17", "T")
 
+chk("C06", "exploration",
+    "For a seeded target event: reference = the event alone on a fresh state; variant = the same slot count after a seeded "
+    "history (other events, events aborted by a throwing user action at a seeded (step, order) followed by reset_state(), "
+    "kill_active(), warm-up) under a seeded configuration (6 re-indexing policies, reindex_shuffle with a fresh permutation "
+    "written into the indirection array before every step, action timing under a jumping simulated clock, status checker). "
+    "Oracle: bit-identical per-track step histories (by track id / step, action ids compared by label), step count and tallies.",
+    T_NOTE + " init_charge is a layout policy and is not compared across.",
+    "deterministic simulation: differential replay after seeded history/abort/reset faults", "§5 C06", "T6")
+
 def main():
     checks = []
     for pid in sorted(CHECKS):
@@ -73,7 +82,7 @@ def main():
         "hooks": {
             "guard": "CELERITAS_VERIF_SIM",
             "enable": "bin/build.sh configures /repo as a sub-project of /verif/cmake with -DCELERITAS_VERIF_SIM in CMAKE_CXX_FLAGS (builds under /verif/.build/<flavour>)",
-            "baseline_off_cmd": "cmake --build /repo/_build -j16 && ctest --test-dir /repo/_build -j8 --timeout 900",
+            "baseline_off_cmd": "cmake --build /repo/_build -j16 -- -k 0; ctest --test-dir /repo/_build -j8 --timeout 900",
             "source_commits": ["85a1df8"],
             "add_only": True,
         },
